@@ -448,6 +448,9 @@ def oracle_prheader_direct(env, case, impl=None) -> list[dict]:
         p = lib.parse_standalone_pssh(impl["pssh"])
         if p.system_id != orc.PLAYREADY_SYSTEM_ID or p.data != impl["pro"]:
             problems.append("generate_pssh does not carry the PRO under the PlayReady system id")
+        if p.version >= 1 and p.kids != [k for k, _, _ in keys]:
+            problems.append(f"the version-1 pssh lists key ids {[k.hex() for k in p.kids]}, the key ids handed to "
+                            f"generate_pssh are {[k.hex() for k, _, _ in keys]} (byte for byte, in order)")
     except Exception as e:
         problems.append(f"pssh does not parse: {e}")
     return [{"what": x, "case": case} for x in problems]
@@ -708,7 +711,7 @@ def ch_prheader(ctx, env) -> Channel:
 
 
 def gen_prheader_http(ctx, env, rng) -> list[dict]:
-    media = [m for m in env.media() if m["encrypted"] and (m["stream"] in ("bbb", "mk", "va", "nl") or m["stream"].startswith("lu"))]
+    media = [m for m in env.media() if m["encrypted"] and (m["stream"] in ("bbb", "mk", "m3", "va", "nl") or m["stream"].startswith("lu"))]
     cases = []
     # regression: the licence URL with '&' (fixed defect) in every location
     amp = "http://lic.example/rights?a=1&b=2"
@@ -723,6 +726,14 @@ def gen_prheader_http(ctx, env, rng) -> list[dict]:
                       "drm": "playready", "version": None, "la": None})
         cases.append({"kind": "prheader_http", "source": "manifest", "stream": lu, "manifest": "hand_made.mpd",
                       "mode": "vod", "drm": "all", "version": None, "la": None})
+    # key sets of 1, 2 and 3 ids x playready / all x locations x init-segment and manifest psshs
+    for stream, track in (("bbb", "bbb_v6_enc"), ("mk", "mk_v6_enc"), ("m3", "m3_v6_enc")):
+        for drm in ("playready", "all", "playready-moov"):
+            cases.append({"kind": "prheader_http", "source": "init", "stream": stream, "name": track, "mode": "vod",
+                          "drm": drm, "version": None, "la": None})
+        for drm in ("playready", "all", "playready-cenc", "playready-pro", "playready-cenc-pro"):
+            cases.append({"kind": "prheader_http", "source": "manifest", "stream": stream, "manifest": "hand_made.mpd",
+                          "mode": "vod", "drm": drm, "version": None, "la": None})
     # DRM selection / licence URL / version stored as stream defaults, nothing in the URL; and overridden
     cases.append({"kind": "prheader_http", "source": "init", "stream": "sd", "name": "sd_v6_enc", "mode": "vod",
                   "drm": None, "version": None, "la": None})
@@ -885,10 +896,14 @@ def oracle_prheader_http(env, c, res=None) -> list[dict]:
                 break
         if problems:
             fails.append({"what": f"{p['where']}: {problems[0]}", "case": c})
-        if "pssh_version" in p:
-            want_v = 0 if len(keys) < 2 else 1
-            if p["pssh_version"] != want_v:
-                pass   # the version rule is C10's (pssh_framing); not part of the C11 statement
+        if p.get("pssh_version", 0) >= 1:
+            # a version-1 pssh names key ids itself: they are the CENC key ids of the track(s) (the bytes of
+            # tenc default_KID / cenc:default_KID), not the little-endian form used inside the PRO
+            listed = list(p["pssh_kids_order"])
+            want = sorted(k for k, _, _ in keys)
+            if sorted(listed) != want:
+                fails.append({"what": f"{p['where']}: the version-1 pssh lists key ids {[k.hex() for k in listed]}, the "
+                                      f"key ids of the track(s) are {[k.hex() for k in want]}", "case": c})
     return fails
 
 
@@ -1178,6 +1193,10 @@ def gen_cp_cases(ctx, rng) -> list[dict]:
     sels += mixed[:ctx.scale(30, len(mixed))] + [lib.random_mixed_selection(rng) for _ in range(ctx.scale(10, 100))]
     cases = [{"kind": "cp", "route": "dash", "stream": "va", "manifest": mf, "mode": "vod", "drm": "all",
               "version": None, "la": None} for mf in ("hand_made.mpd", "manifest_e.mpd")]
+    for stream in ("mk", "m3"):
+        for drm in ("all", "playready-cenc,clearkey-cenc", "all-moov"):
+            cases.append({"kind": "cp", "route": "dash", "stream": stream, "manifest": "hand_made.mpd", "mode": "vod",
+                          "drm": drm, "version": None, "la": None})
     # selection stored as stream defaults (no drm parameter), and overridden by the request
     cases.append({"kind": "cp", "route": "dash", "stream": "sd", "manifest": "hand_made.mpd", "mode": "vod", "drm": None,
                   "version": None, "la": None})
@@ -1337,6 +1356,18 @@ def oracle_cp(env, c, res=None) -> list[dict]:
                     fails.append({"what": f"{where}: cenc:default_KID {cp['default_kid']} is not the track's key id {sorted(k.hex() for k in track_kids)}"})
         if not any(lib.system_of_scheme(cp["scheme"]) == "mp4protection" and cp["default_kid"] for cp in adp["cps"]):
             fails.append({"what": f"{where}: no mp4protection element with cenc:default_KID"})
+        # a version-1 cenc:pssh (either system) lists exactly the key ids of this adaptation set's tracks
+        set_kids = sorted({k for m in reps for k in m["kids"]})
+        for cp in adp["cps"]:
+            if cp["pssh"] is not None:
+                try:
+                    pb = lib.parse_standalone_pssh(cp["pssh"])
+                except Exception as e:
+                    fails.append({"what": f"{where}: cenc:pssh does not parse: {e}"})
+                    continue
+                if pb.version >= 1 and sorted(pb.kids) != set_kids:
+                    fails.append({"what": f"{where}: {lib.system_of_scheme(cp['scheme'])} cenc:pssh (version {pb.version}) lists key ids "
+                                          f"{[k.hex() for k in pb.kids]}, the tracks use {[k.hex() for k in set_kids]}"})
         # embedded payloads = what the init segment carries for the same request
         same_keys = len({tuple(m["kids"]) for m in reps}) == 1
         if not same_keys:
